@@ -4,7 +4,7 @@
    group); the executed Kravatte instance is tied to the latter by c12_executed_instance_is_deck_sanse.
    "Equals the specification": Model/Kravatte.v + Model/Sanse.v reproduce the published XKCP transcripts
    inside Coq (Proofs/KravatteVectors.v), and the Go code agrees with the model on every ./check C12. *)
-From Hop Require Import Base Keccak Kravatte Sanse SanseProofs KravatteProofs KravatteVectors.
+From Hop Require Import Base Keccak Kravatte Sanse SanseProofs KravatteProofs MaskProofs KravatteVectors.
 Open Scope N_scope.
 
 (* ---- open o seal, whole sessions, every deck function that returns as many bytes as asked ---- *)
@@ -113,6 +113,25 @@ Theorem c12_mask_injective_under_perm_inj : forall (p : lanes -> lanes),
                 kv_k (kv_init p k1) = kv_k (kv_init p k2) -> k1 = k2.
 Proof. exact mask_injective. Qed.
 Print Assumptions c12_mask_injective_under_perm_inj.
+
+(* The Go mask derivation (RefMaskInitialize: snp.StateSetBytes of the key into a zero state,
+   snp.StateSetByte(1, len(key)) as fixed, permutation), transcribed on uint64 lanes with masks and
+   shifts, IS the specification's k = p(K || 1 || 0..0) for EVERY well-formed key of 1..199 bytes
+   (byte -> lane packing proved at the bit level; the permutation is the same function on both sides). *)
+Theorem c12_go_mask_is_spec_all_keys : forall k,
+  k <> [] -> (List.length k < 200)%nat -> wf_bytes k = true ->
+  go_mask_init k = Ok (kv_k (kv6_init k)).
+Proof. exact go_mask_init_is_spec. Qed.
+Print Assumptions c12_go_mask_is_spec_all_keys.
+
+(* hence the Go derivation itself never maps two different keys to the same mask (Keccak-p injective) *)
+Theorem c12_go_mask_injective_under_keccak6_inj :
+  (forall a b, keccak6 a = keccak6 b -> a = b) ->
+  forall k1 k2, k1 <> [] -> k2 <> [] -> (List.length k1 < 200)%nat -> (List.length k2 < 200)%nat ->
+                wf_bytes k1 = true -> wf_bytes k2 = true ->
+                go_mask_init k1 = go_mask_init k2 -> k1 = k2.
+Proof. exact go_mask_injective. Qed.
+Print Assumptions c12_go_mask_injective_under_keccak6_inj.
 
 (* the Go mask derivation (RefMaskInitialize + snp.StateSetBytes/StateSetByte, as fixed) equals the
    specification's for every key length 1..199 (one key per length, evaluated) *)
